@@ -1,4 +1,5 @@
-(* Counterexamples for C16 on the float64 share of the code, by computation (no axioms). *)
+(* History: inputs on which the float64 share used by vestingsc before /repo f517460 overpaid, by
+   computation (no axioms). *)
 From ZC Require Import Model.Vesting Proof.Vesting.
 Open Scope Z_scope.
 
@@ -53,7 +54,7 @@ Proof.
     repeat split; try lia; repeat constructor; cbn [snd]; lia.
 Qed.
 
-Lemma vw_refuted_amount : ~ (forall conf ops, Forall (vs_op_wf vs_two64) ops ->
+Lemma vw_f64_exceeds_amount : ~ (forall conf ops, Forall (vs_op_wf vs_two64) ops ->
                                vs_st_inv vs_two64 (fst (vs_run vs_share_f64 conf None ops))).
 Proof.
   intros H. specialize (H vw_conf vw_ops_excess (proj1 vw_wf)). rewrite vw_excess_run in H.
@@ -61,7 +62,7 @@ Proof.
   inversion Hds as [|? ? Hd _]; subst. destruct Hd as ((_ & Hle) & _). cbn [vd_vested vd_amount] in Hle. unfold vw_amount in Hle. lia.
 Qed.
 
-Lemma vw_refuted_schedule : ~ (forall conf ops, Forall (vs_op_wf vs_two64) ops ->
+Lemma vw_f64_ahead_of_schedule : ~ (forall conf ops, Forall (vs_op_wf vs_two64) ops ->
                                  vs_st_sched (fst (vs_run vs_share_f64 conf None ops))).
 Proof.
   intros H. specialize (H vw_conf_long vw_ops_sched (proj2 (proj2 vw_wf))). rewrite vw_sched_run in H.
@@ -69,8 +70,8 @@ Proof.
   unfold vs_on_schedule in Hd. cbn [vd_vested vd_amount vd_move] in Hd. vm_compute in Hd. apply Hd. reflexivity.
 Qed.
 
-Lemma vw_refuted : ~ vs_full_statement vs_share_f64.
-Proof. intros H. apply vw_refuted_amount. intros conf ops Hwf. apply (H conf ops Hwf). Qed.
+Lemma vw_f64_full_statement_false : ~ vs_full_statement vs_share_f64.
+Proof. intros H. apply vw_f64_exceeds_amount. intros conf ops Hwf. apply (H conf ops Hwf). Qed.
 
 (* the owner can neither withdraw the excess (the 9 tokens left in the pool) nor delete, and in
    the pool without excess neither the destination nor the owner can ever move the tokens *)
